@@ -173,6 +173,14 @@ impl RefBlake {
     }
 }
 
+/// The bare compression function on an arbitrary chaining value (C03 drives `put_block::<M>`).
+pub fn compress_raw(big: bool, h: [u64; 8], block: &[u8], t: u128) -> [u64; 8] {
+    let mut r = RefBlake::new(if big { 512 } else { 256 });
+    r.h = h;
+    r.compress(block, t);
+    r.h
+}
+
 pub fn blake(bits: u32, msg: &[u8]) -> Vec<u8> {
     let mut h = RefBlake::new(bits);
     h.update(msg);
